@@ -203,11 +203,13 @@ func handleZCOUNT(params internal.HandlerFuncParams) ([]byte, error) {
 	default:
 		return nil, errors.New("min constraint must be a double")
 	case string:
-		if strings.ToLower(params.Command[2]) == "+inf" {
-			minimum = Score(math.Inf(1))
-		} else {
+		// AdaptType reads only the spellings "inf" and "Inf" of infinity as a number;
+		// take the others (-INF, +Infinity, ...) in either direction, like the other range commands
+		f, err := strconv.ParseFloat(params.Command[2], 64)
+		if err != nil || !math.IsInf(f, 0) {
 			return nil, errors.New("min constraint must be a double")
 		}
+		minimum = Score(f)
 	case float64:
 		s, _ := internal.AdaptType(params.Command[2]).(float64)
 		minimum = Score(s)
@@ -221,11 +223,11 @@ func handleZCOUNT(params internal.HandlerFuncParams) ([]byte, error) {
 	default:
 		return nil, errors.New("max constraint must be a double")
 	case string:
-		if strings.ToLower(params.Command[3]) == "-inf" {
-			maximum = Score(math.Inf(-1))
-		} else {
+		f, err := strconv.ParseFloat(params.Command[3], 64)
+		if err != nil || !math.IsInf(f, 0) {
 			return nil, errors.New("max constraint must be a double")
 		}
+		maximum = Score(f)
 	case float64:
 		s, _ := internal.AdaptType(params.Command[3]).(float64)
 		maximum = Score(s)
